@@ -29,7 +29,7 @@ func main() {
 	n := flag.Int("n", 100, "number of generated cases")
 	out := flag.String("out", "", "output file")
 	replay := flag.String("replay", "", "file of lines with a case=x<hex json> field to re-run")
-	stage := flag.String("stage", "hist", "hist | tokid | race | careload | defects")
+	stage := flag.String("stage", "hist", "hist | handlers | tokid | race | careload | defects")
 	flag.Parse()
 	o, err := c.NewOut(*out)
 	if err != nil {
@@ -37,6 +37,14 @@ func main() {
 		os.Exit(2)
 	}
 	defer o.Close()
+	defer func() {
+		for _, e := range sharedEnvs {
+			e.close()
+		}
+		if awsDir != "" {
+			os.RemoveAll(awsDir)
+		}
+	}()
 	if *replay != "" {
 		data, err := os.ReadFile(*replay)
 		if err != nil {
@@ -73,6 +81,13 @@ func main() {
 		for i := 0; i < *n; i++ {
 			runCase(o, &Case{Hist: genHist(r.Fork())})
 		}
+	case "handlers":
+		for _, h := range cornerHandlers() {
+			runCase(o, &Case{Handlers: h})
+		}
+		for i := 0; i < *n; i++ {
+			runCase(o, &Case{Handlers: genHandlers(r.Fork())})
+		}
 	case "tokid":
 		for _, t := range cornerTokids() {
 			runCase(o, &Case{Tokid: t})
@@ -93,7 +108,7 @@ func main() {
 	case "defects":
 		for _, d := range []Defect{
 			{Kind: "nodb-same-second"}, {Kind: "nodb-later-second"}, {Kind: "db-same-second"},
-			{Kind: "respell", JTI: false}, {Kind: "respell", JTI: true}, {Kind: "respell-gcp"}, {Kind: "renewtok-acme"}, {Kind: "renewtok-k8s"},
+			{Kind: "respell", JTI: false}, {Kind: "respell", JTI: true}, {Kind: "respell-gcp"}, {Kind: "respell-aws"}, {Kind: "usetoken-fault-before"}, {Kind: "usetoken-fault-after"}, {Kind: "renewtok-acme"}, {Kind: "renewtok-k8s"},
 		} {
 			d := d
 			runCase(o, &Case{Defect: &d})
@@ -104,9 +119,13 @@ func main() {
 	}
 }
 
+// environments shared by the cases of a stage (tokid, race): closed when the stage ends
+var sharedEnvs []*env
+
 // Case is the replayable form of one line of any stage.
 type Case struct {
 	Hist     *Hist     `json:",omitempty"`
+	Handlers *HCase    `json:",omitempty"`
 	Tokid    *Tokid    `json:",omitempty"`
 	Race     *Race     `json:",omitempty"`
 	Defect   *Defect   `json:",omitempty"`
@@ -133,6 +152,8 @@ func runCase(o *c.Out, k *Case) {
 		switch {
 		case k.Hist != nil:
 			in, impl = runHist(k.Hist)
+		case k.Handlers != nil:
+			in, impl = runHandlers(k.Handlers)
 		case k.Tokid != nil:
 			in, impl = runTokid(k.Tokid)
 		case k.Race != nil:
